@@ -117,6 +117,51 @@ def pyeval(e, env, arr):
     raise ValueError(k)
 
 
+def pyeval_rat(e, env, arr):
+    """the same expression over the rationals (exact division); None if it has MOD/MIN/MAX or divides by zero"""
+    from fractions import Fraction
+    k = e[0]
+    if k == "v":
+        return Fraction(env[e[1]])
+    if k == "n":
+        return Fraction(e[1])
+    if k == "neg":
+        v = pyeval_rat(e[1], env, arr)
+        return None if v is None else -v
+    if k in ("+", "-", "*", "/"):
+        a, b = pyeval_rat(e[1], env, arr), pyeval_rat(e[2], env, arr)
+        if a is None or b is None:
+            return None
+        if k == "/":
+            return None if b == 0 else a / b
+        return a + b if k == "+" else a - b if k == "-" else a * b
+    if k == "pow":
+        v = pyeval_rat(e[1], env, arr)
+        return None if v is None else v ** e[2]
+    if k in ("arr", "sarr"):
+        idx = [pyeval_rat(x, env, arr) for x in e[1:] if isinstance(x, tuple)]
+        if any(i is None or i.denominator != 1 for i in idx):
+            return None
+        return Fraction(arr(int(idx[0])) if k == "arr" else arr.c3(*[int(i) for i in idx]))
+    return None
+
+
+def eval_text_rat(text, env, arr):
+    """rational value of a Fortran expression text (every variable typed REAL so that `/` is exact); None if
+    the text uses anything but + - * / ** and a(...) with integral index"""
+    from fractions import Fraction
+    import re as _re
+    if _re.search(r"mod|min|max|abs|%", text, _re.I):
+        return None
+    t = _re.sub(r"a\(", "A_(", text)
+    try:
+        val = eval(t.replace("**", "^^").replace("^^", "**"),   # noqa: S307  arithmetic over Fractions only
+                   {"__builtins__": {}, "A_": lambda x: Fraction(arr(int(x))), **{k: Fraction(v) for k, v in env.items()}})
+    except Exception:  # pylint: disable=broad-except
+        return None
+    return val if isinstance(val, Fraction) else Fraction(val)
+
+
 def solve(cons, timeout_ms=8000, box=None):
     s = z3.Solver()
     s.set("timeout", timeout_ms)
@@ -232,6 +277,18 @@ def work(batch):
                 if modpos and not key["params"]["exact_div_sound"]:
                     rr, _, _ = solve(base + cons + exact + modpos, 20000)
                     key["params"]["mod_nonneg_sound"] = rr == "unsat"
+                if (not key["params"]["exact_div_sound"] and not key["params"]["mod_nonneg_sound"]
+                        and unit in ("SymbolicMaths.equal", "SymbolicMaths.expand")):
+                    # the universal classification query can time out on products of quotients: decide the class
+                    # at the witness itself - over the rationals (exact division) both sides agree there, so the
+                    # discrepancy comes from integer division
+                    if unit == "SymbolicMaths.equal":
+                        ra, rb = pyeval_rat(p["e1"], env, arr), pyeval_rat(p["e2"], env, arr)
+                    else:
+                        ra, rb = pyeval_rat(p["e2"], env, arr), eval_text_rat((extra or {}).get("out", ""), env, arr)
+                    if ra is not None and rb is not None and ra == rb:
+                        key["params"]["exact_div_sound"] = True
+                        key["params"]["class_by_witness"] = True
                 if unit == "SymbolicMaths.never_equal":
                     # the known defect class: over the rationals the difference is a non-zero
                     # INTEGER constant (that is the only case in which the pinned code answers True)
